@@ -52,13 +52,17 @@ def sameMS (a b : List Rat) : Bool := sortR a == sortR b
 
 def absQ (q : Rat) : Rat := if q < 0 then -q else q
 
+/-- every branch that counts has a length (no `NIL` sentinel): the weighted clause of the
+    property speaks of lengths -/
+def lensPresent (tips : Bool) (t : T) : Bool := (U tips t).all fun s => s.len != NIL
+
 /-- Spec of the weighted record (as multisets): lengths of the splits specific to the
-    reference, of those specific to the compared tree, and the absolute length
-    differences on the shared splits (the property does not fix a sign). -/
+    reference, of those specific to the compared tree, and the length differences
+    (reference - compared) on the shared splits. -/
 def wTermsOK (r c : T) (tips : Bool) (ref comp common : List Rat) : Bool :=
   sameMS ref (onlyLens (U tips r) (U tips c)) &&
   sameMS comp (onlyLens (U tips c) (U tips r)) &&
-  sameMS (common.map absQ) ((commonDiffs (U tips r) (U tips c)).map absQ)
+  sameMS common (commonDiffs (U tips r) (U tips c))
 
 /-- weighted identity: same splits, same lengths -/
 def wSame (r c : T) (tips : Bool) : Bool :=
